@@ -289,8 +289,20 @@ func (p *Packer) packWalkFn(root, src, dst string, tarW *tar.Writer, meta *Meta,
 				return fmt.Errorf("failed to read symlink %q: %w", path, err)
 			}
 
-			// Check if the symlink's target falls within the root.
-			if ok, err := p.validSymlink(root, path, target); ok {
+			// Check if the symlink's target falls within the root, both as
+			// written and when followed through any other symlinks on the
+			// way (".." after a component that is a symlink is applied to
+			// wherever that symlink leads).
+			ok, err := p.validSymlink(root, path, target)
+			if ok && !p.linkResolvesWithin(root, path) {
+				ok, err = false, &IllegalSlugError{
+					Err: fmt.Errorf(
+						"invalid symlink (%q -> %q) leads to an external target through another symlink",
+						path, target,
+					),
+				}
+			}
+			if ok {
 				// We can simply copy the link.
 				header.Typeflag = tar.TypeSymlink
 				header.Linkname = filepath.ToSlash(target)
@@ -446,7 +458,7 @@ func Unpack(r io.Reader, dst string) error {
 }
 
 // Unpack unpacks the archive data in r into directory dst.
-func (p *Packer) Unpack(r io.Reader, dst string) error {
+func (p *Packer) Unpack(r io.Reader, dst string) (err error) {
 	// Track directory times and permissions so they can be restored after all files
 	// are extracted. This metadata modification is delayed because extracting files
 	// into a new directory would necessarily change its timestamps. By way of
@@ -454,6 +466,17 @@ func (p *Packer) Unpack(r io.Reader, dst string) error {
 	// https://www.gnu.org/software/tar/manual/html_node/Directory-Modification-Times-and-Permissions.html
 	// for more details about how tar attempts to preserve file metadata.
 	directoriesExtracted := []unpackinfo.UnpackInfo{}
+
+	// Track the symlinks we create. Each one is validated on its own when it
+	// is created, but where a link really leads also depends on the other
+	// links in the tree, so they are checked once more when all are in place.
+	linksExtracted := []string{}
+	defer func() {
+		// Do not leave such a link behind when extraction stops early.
+		if err != nil {
+			p.removeExternalLinks(dst, linksExtracted)
+		}
+	}()
 
 	// Decompress as we read.
 	uncompressed, err := gzip.NewReader(r)
@@ -542,6 +565,7 @@ func (p *Packer) Unpack(r io.Reader, dst string) error {
 				return err
 			}
 
+			linksExtracted = append(linksExtracted, info.Path)
 			continue
 		}
 
@@ -592,6 +616,15 @@ func (p *Packer) Unpack(r io.Reader, dst string) error {
 		}
 	}
 
+	// A link target is validated lexically, but ".." after a component that
+	// is itself a symlink is applied to wherever that symlink leads, so a
+	// target that stays inside dst on paper can still lead outside. Follow
+	// every extracted link the way the operating system would and refuse
+	// (and remove) one that ends outside dst without being allowed to.
+	if err := p.removeExternalLinks(dst, linksExtracted); err != nil {
+		return err
+	}
+
 	for _, dir := range directoriesExtracted {
 		if err := dir.RestoreInfo(); err != nil {
 			return err
@@ -599,6 +632,95 @@ func (p *Packer) Unpack(r io.Reader, dst string) error {
 	}
 
 	return nil
+}
+
+// removeExternalLinks removes those of the given symlinks that lead outside
+// root (see linkResolvesWithin) and reports the first one as an error.
+func (p *Packer) removeExternalLinks(root string, links []string) error {
+	var first error
+	for _, link := range links {
+		if p.linkResolvesWithin(root, link) {
+			continue
+		}
+		target, _ := os.Readlink(link)
+		os.Remove(link)
+		if first == nil {
+			first = &IllegalSlugError{
+				Err: fmt.Errorf(
+					"invalid symlink (%q -> %q) leads to an external target through another symlink",
+					link, target,
+				),
+			}
+		}
+	}
+	return first
+}
+
+// linkResolvesWithin follows the symlink at the given path component by
+// component, including any symlinks met on the way, and reports whether
+// the location it finally names is inside root or explicitly allowed per
+// the Packer's config. Components that do not exist cannot be symlinks, so
+// from the first missing one onwards the rest of the path is taken as
+// written. A link that leads nowhere (a loop) does not lead outside.
+func (p *Packer) linkResolvesWithin(root, link string) bool {
+	target, err := os.Readlink(link)
+	if err != nil {
+		// Replaced by a later entry: no longer a link.
+		return true
+	}
+	absRoot, err := filepath.Abs(root)
+	if err != nil {
+		return false
+	}
+	realRoot := realPath(absRoot)
+
+	within := func(path string) bool {
+		prefix := strings.TrimSuffix(realRoot, string(filepath.Separator)) + string(filepath.Separator)
+		if path == realRoot || strings.HasPrefix(path, prefix) {
+			return true
+		}
+		return p.allowedSymlinkTarget(realRoot, path) || p.allowedSymlinkTarget(absRoot, path)
+	}
+
+	// cur is always a path free of symlinks; pending holds the components
+	// that remain to be applied to it.
+	cur := realPath(filepath.Dir(link))
+	pending := strings.Split(target, string(filepath.Separator))
+	if filepath.IsAbs(target) {
+		cur = string(filepath.Separator)
+	}
+	for hops := 0; len(pending) > 0; {
+		c := pending[0]
+		pending = pending[1:]
+		switch c {
+		case "", ".":
+			continue
+		case "..":
+			cur = filepath.Dir(cur)
+			continue
+		}
+		next := filepath.Join(cur, c)
+		fi, err := os.Lstat(next)
+		if err != nil {
+			return within(filepath.Join(append([]string{next}, pending...)...))
+		}
+		if fi.Mode()&os.ModeSymlink == 0 {
+			cur = next
+			continue
+		}
+		if hops++; hops > maxSymlinkHops {
+			return true
+		}
+		t, err := os.Readlink(next)
+		if err != nil {
+			return true
+		}
+		if filepath.IsAbs(t) {
+			cur = string(filepath.Separator)
+		}
+		pending = append(strings.Split(t, string(filepath.Separator)), pending...)
+	}
+	return within(cur)
 }
 
 // Given a "root" directory, the path to a symlink within said root, and the
